@@ -50,11 +50,11 @@ fn record_ops(r: &Record) -> usize {
             n += d.data().len();
             n += d.compressed() as usize;
             let _ = d.messages();
-            let _ = format!("{:?}", d);
+            let _ = debug_all(&d);
         }
         let _ = r.messages().map(|m| m.len());
     }
-    n += format!("{:?}", r).len();
+    n += debug_all(r);
     n
 }
 
@@ -87,7 +87,7 @@ pub fn check_bytes(ctx: &Ctx, bytes: &[u8], origin: &str, st: &mut Stats) -> usi
     one("File::header", &mut || file.header().is_ok() as usize);
     #[cfg(feature = "full")]
     one("File::scan", &mut || file.scan().map(|s| s.sweeps().len()).unwrap_or(0));
-    one("File::debug", &mut || format!("{:?}", file).len());
+    one("File::debug", &mut || debug_all(&file));
     one("split_compressed_records", &mut || split_compressed_records(bytes).len());
     let rec = Record::new(owned(bytes));
     one("Record::data", &mut || rec.data().len());
@@ -96,7 +96,7 @@ pub fn check_bytes(ctx: &Ctx, bytes: &[u8], origin: &str, st: &mut Stats) -> usi
     one("Record::decompress", &mut || rec.decompress().map(|r| r.data().len()).unwrap_or(0));
     #[cfg(feature = "full")]
     one("Record::messages", &mut || rec.messages().map(|m| m.len()).unwrap_or(0));
-    one("Record::debug", &mut || format!("{:?}", rec).len());
+    one("Record::debug", &mut || debug_all(&rec));
     let slice_rec = Record::from_slice(bytes);
     one("Record::debug", &mut || record_ops(&slice_rec));
     #[cfg(any(feature = "full", feature = "v-aws"))]
@@ -104,7 +104,7 @@ pub fn check_bytes(ctx: &Ctx, bytes: &[u8], origin: &str, st: &mut Stats) -> usi
     #[cfg(any(feature = "full", feature = "v-aws"))]
     if let Caught::Ret(Ok(ch)) = guarded(|| Chunk::new(owned(bytes))) {
         one("Chunk::data", &mut || ch.data().len());
-        one("Chunk::debug", &mut || format!("{:?}", ch).len());
+        one("Chunk::debug", &mut || debug_all(&ch));
         one("Chunk::inner_ops", &mut || match &ch {
             Chunk::Start(f) => {
                 #[allow(unused_mut)]
